@@ -174,6 +174,28 @@ func sendOrder(e *Env) {
 	if !s.connect() {
 		return
 	}
+	// ordinary inbound traffic while the senders run: server PINGs (answered by
+	// the client's own PONGs, which share the output queue) and chatter
+	stopTraffic := false
+	if g.Pct(60) {
+		every := []time.Duration{0, 300 * time.Microsecond, 5 * time.Millisecond, time.Second}[g.Intn(4)]
+		e.S.Spawn("server-pinger", func() {
+			for k := 0; k < 400 && !stopTraffic; k++ {
+				if e.S.Choose(4) == 0 {
+					s.l.SendLine(":u!u@h PRIVMSG me :chatter")
+				} else {
+					s.l.SendLine(fmt.Sprintf("PING :srv%d", k))
+				}
+				e.S.Count("fault.server-ping-during-sends")
+				if every == 0 {
+					simrt.Sleep(0)
+				} else {
+					simrt.Sleep(every)
+				}
+			}
+		})
+	}
+	defer func() { stopTraffic = true }()
 	for _, sd := range senders {
 		sd := sd
 		if sd.kind == 0 {
@@ -197,6 +219,7 @@ func sendOrder(e *Env) {
 		e.Violation("sender-stuck", "a sender did not return although the connection is up and the server keeps reading\n%s", e.S.TaskDump())
 		return
 	}
+	stopTraffic = true
 	got := func() int {
 		n := 0
 		for _, ln := range s.lines {
